@@ -17,6 +17,8 @@ def run(chk):
         macros = macro.family_macros(chk, fam)
         cases = macro.enumerate_paths(chk, fam, L, 4 if chk.thorough else 3, invariants=inv)
         total += macro.replay(chk, th, fam, macros, cases, "c09")
+        if fam in ("literal", "pslot", "args"):      # keyword literals match by kind: the program spells them differently from the pattern
+            total += macro.replay(chk, th, fam, macros, cases, "c09:altcase", layout="altcase")
         chk.add("rewriting_paths", len(cases))
     # end to end: sources using macros must behave like their documented meaning (C01's pipeline, macro-heavy profile)
     progs = sem.generate(chk.seed + 90, 1500 if chk.thorough else 250, canon=False, profile="macroheavy")
@@ -29,7 +31,7 @@ def run(chk):
     chk.cov["exhaustive"] = True
     chk.cov["rule"] = ("TheoMacro (declarative match relation, Best = priority > leftmost > longest) on 9 macro families (prefix patterns in both "
                        "definition orders, distinct priorities, equal priorities with overlapping candidates, literal identifier/operator/keyword "
-                       "constraints, a slot used twice in a body, layered macros whose bodies introduce the other pattern's operator, ID/INT/VALUE/ARGS/P slots with nested calls and statement sequences): all streams of <= 5 (thorough 6) tokens "
+                       "constraints (keywords also spelled differently in the program than in the pattern), a slot used twice in a body, layered macros whose bodies introduce the other pattern's operator, ID/INT/VALUE/ARGS/P slots with nested calls and statement sequences): all streams of <= 5 (thorough 6) tokens "
                        "over the family's vocabulary, every rewriting path; the k-th stream of apply_macros(budget k) must equal the k-th "
                        "specification stream (kinds and texts, temporaries up to renaming); in-model UniquePerLoc, BestAgree; macro-heavy "
                        "generated programs end to end through TheoSem")
